@@ -38,14 +38,18 @@ pub fn decode(mut src: &[u8], mut uncompressed_size: usize) -> io::Result<Vec<u8
         None
     };
 
-    let mut dst = vec![0; uncompressed_size];
-
-    if flags.is_uncompressed() {
-        dst.copy_from_slice(src);
-    } else if flags.order() == 0 {
-        order_0::decode(&mut src, &mut dst, state_count)?;
+    let mut dst = if flags.is_uncompressed() {
+        split_off(&mut src, uncompressed_size)?.to_vec()
     } else {
-        order_1::decode(&mut src, &mut dst, state_count)?;
+        let mut dst = vec![0; uncompressed_size];
+
+        if flags.order() == 0 {
+            order_0::decode(&mut src, &mut dst, state_count)?;
+        } else {
+            order_1::decode(&mut src, &mut dst, state_count)?;
+        }
+
+        dst
     };
 
     if let Some(ctx) = rle_context {
@@ -238,6 +242,20 @@ mod tests {
         assert_eq!(decode(&src, 0)?, b"noodles");
 
         Ok(())
+    }
+
+    #[test]
+    fn test_decode_uncompressed_with_invalid_uncompressed_size() {
+        let src = [
+            0x20, // flags = CAT
+            0x08, // uncompressed len = 8
+            0x6e, 0x6f, 0x6f, 0x64, 0x6c, 0x65, 0x73,
+        ];
+
+        assert!(matches!(
+            decode(&src, 0),
+            Err(e) if e.kind() == io::ErrorKind::UnexpectedEof
+        ));
     }
 
     #[test]
